@@ -179,6 +179,9 @@ PROPS = {
             S("simfault", ["--cases", 150, "--conns", 3], ["--cases", 8000, "--conns", 3, "--nodes", 4, "--actions", 50]),
             S("simlate", ["--cases", 80], ["--cases", 4000, "--conns", 3]),
             S("simproto", ["--cases", 60], ["--cases", 3000, "--nodes", 4]),
+            # the node's own wantlists received by a raw peer: whole frames only; one run in six with a wantlist frame
+            # larger than a yamux window (back-pressure on the client half's sink)
+            S("simraw", ["--cases", 120], ["--cases", 6000]),
         ],
     ),
     "C15": dict(
